@@ -12,6 +12,7 @@ package timing
 import (
 	"bufio"
 	"bytes"
+	"context"
 	"fmt"
 	"io"
 	"net"
@@ -56,7 +57,7 @@ type Scenario struct {
 	TimeoutMs  int    `json:"timeout_ms"`  // cfg.Proxy.ReadTimeout
 	AckMs      int    `json:"ack_ms"`      // how long the backend waits for the client's ack before it goes on regardless
 	HoldMs     int    `json:"hold_ms"`     // how long a "stall" holds the socket before the backend gives up and closes
-	Route      string `json:"route"`       // proxy
+	Route      string `json:"route"`       // proxy (/olla/proxy/..., bytes relayed verbatim) | anthropic (/olla/anthropic/v1/messages: the backend's OpenAI SSE is translated on the fly; acknowledgement = the client saw new bytes)
 }
 
 type ChunkObs struct {
@@ -111,6 +112,7 @@ type Backend struct {
 	sc     *Scenario
 	t0     time.Time
 	acks   []chan struct{}
+	prog   *int64 // body bytes the client has seen so far (route anthropic: acknowledgement by activity)
 	obs    *BackendObs
 	done   chan struct{} // closed when the scripted request has been fully played
 	once   sync.Once
@@ -131,10 +133,10 @@ func (b *Backend) Close()           { b.ln.Close() }
 func (b *Backend) OpenConns() int64 { return atomic.LoadInt64(&b.open) }
 
 // Arm installs the script for the next non-housekeeping request.
-func (b *Backend) Arm(sc *Scenario, t0 time.Time, acks []chan struct{}) *BackendObs {
+func (b *Backend) Arm(sc *Scenario, t0 time.Time, acks []chan struct{}, prog *int64) *BackendObs {
 	b.mu.Lock()
 	defer b.mu.Unlock()
-	b.sc, b.t0, b.acks = sc, t0, acks
+	b.sc, b.t0, b.acks, b.prog = sc, t0, acks, prog
 	b.obs = &BackendObs{HdrUs: -1, EndUs: -1, TornUs: -1}
 	b.done = make(chan struct{})
 	b.once = sync.Once{}
@@ -182,7 +184,7 @@ func (b *Backend) handle(c net.Conn) {
 			return
 		}
 		b.mu.Lock()
-		sc, t0, acks, obs, done := b.sc, b.t0, b.acks, b.obs, b.done
+		sc, t0, acks, obs, done, prog := b.sc, b.t0, b.acks, b.obs, b.done, b.prog
 		b.mu.Unlock()
 		if sc == nil {
 			fmt.Fprintf(c, "HTTP/1.1 500 X\r\nContent-Length: 0\r\nConnection: close\r\n\r\n")
@@ -196,14 +198,15 @@ func (b *Backend) handle(c net.Conn) {
 			fmt.Fprintf(c, "HTTP/1.1 500 X\r\nContent-Length: 0\r\nConnection: close\r\n\r\n")
 			return
 		}
-		b.play(c, sc, t0, acks, obs)
+		b.play(c, sc, t0, acks, prog, obs)
 		b.once.Do(func() { close(done) })
 		return
 	}
 }
 
 // play runs the script on one connection. Only this goroutine writes obs until done is closed.
-func (b *Backend) play(c net.Conn, sc *Scenario, t0 time.Time, acks []chan struct{}, obs *BackendObs) {
+func (b *Backend) play(c net.Conn, sc *Scenario, t0 time.Time, acks []chan struct{}, prog *int64, obs *BackendObs) {
+	anth := sc.Route == "anthropic"
 	obs.Got = true
 	obs.ReqUs = us(t0)
 	// teardown detector: the request has been read completely, so the next thing the socket says is its end
@@ -281,8 +284,20 @@ func (b *Backend) play(c net.Conn, sc *Scenario, t0 time.Time, acks []chan struc
 		return
 	}
 	last = time.Now()
+	var seenBefore int64
 	ackWait := func(k int) { // after chunk k was written
 		co := &obs.Chunks[k]
+		if anth {
+			dl := time.Now().Add(time.Duration(sc.AckMs) * time.Millisecond)
+			for time.Now().Before(dl) {
+				if atomic.LoadInt64(prog) > seenBefore {
+					co.Acked, co.AckUs = true, us(t0)
+					return
+				}
+				time.Sleep(500 * time.Microsecond)
+			}
+			return
+		}
 		// (a torn upstream connection does not end the wait: what was already relayed may still be on its way to the client)
 		select {
 		case <-acks[k]:
@@ -296,7 +311,11 @@ func (b *Backend) play(c net.Conn, sc *Scenario, t0 time.Time, acks []chan struc
 			return
 		}
 		var buf []byte
-		if sc.Framing == "cl" {
+		if anth {
+			seenBefore = atomic.LoadInt64(prog)
+			ev := OpenAIChunk(strings.Repeat(string(rune(Fill(k))), s.Size), "")
+			buf = []byte(fmt.Sprintf("%x\r\n%s\r\n", len(ev), ev))
+		} else if sc.Framing == "cl" {
 			buf = bytes.Repeat([]byte{Fill(k)}, s.Size)
 		} else {
 			hd := fmt.Sprintf("%x\r\n", s.Size)
@@ -328,6 +347,10 @@ func (b *Backend) play(c net.Conn, sc *Scenario, t0 time.Time, acks []chan struc
 	}
 	switch sc.Ending {
 	case "eof":
+		if anth {
+			ev := OpenAIChunk("", "stop") + "data: [DONE]\n\n"
+			fmt.Fprintf(c, "%x\r\n%s\r\n", len(ev), ev)
+		}
 		if sc.Framing != "cl" {
 			c.Write([]byte("0\r\n\r\n"))
 		}
@@ -340,6 +363,19 @@ func (b *Backend) play(c net.Conn, sc *Scenario, t0 time.Time, acks []chan struc
 	default:
 		hold()
 	}
+}
+
+// OpenAIChunk is one chat.completion.chunk SSE event.
+func OpenAIChunk(content, finish string) string {
+	fr := "null"
+	if finish != "" {
+		fr = fmt.Sprintf("%q", finish)
+	}
+	delta := "{}"
+	if content != "" {
+		delta = fmt.Sprintf(`{"role":"assistant","content":%q}`, content)
+	}
+	return fmt.Sprintf(`data: {"id":"chatcmpl-1","object":"chat.completion.chunk","model":"m1","choices":[{"index":0,"delta":%s,"finish_reason":%s}]}`, delta, fr) + "\n\n"
 }
 
 // ---------------------------------------------------------------- client
@@ -445,7 +481,7 @@ func (p *bodyParser) feed(b []byte, sink func([]byte)) {
 }
 
 // RunClient sends one POST and watches the response arrive.
-func RunClient(addr, target string, sc *Scenario, t0 time.Time, acks []chan struct{}, thresholds []int, deadline time.Time) ClientObs {
+func RunClient(addr string, sc *Scenario, t0 time.Time, acks []chan struct{}, thresholds []int, prog *int64, deadline time.Time) ClientObs {
 	o := ClientObs{HdrUs: -1, EndUs: -1, AbortUs: -1, FirstUs: -1}
 	c, err := net.DialTimeout("tcp", addr, 2*time.Second)
 	if err != nil {
@@ -453,7 +489,12 @@ func RunClient(addr, target string, sc *Scenario, t0 time.Time, acks []chan stru
 		return o
 	}
 	defer c.Close()
+	target := "/olla/proxy/v1/chat/completions"
 	body := `{"messages":[{"role":"user","content":"hi"}],"stream":true}`
+	if sc.Route == "anthropic" {
+		target = "/olla/anthropic/v1/messages"
+		body = `{"max_tokens":64,"model":"m1","stream":true,"messages":[{"role":"user","content":[{"type":"text","text":"hi"}]}]}`
+	}
 	req := fmt.Sprintf("POST %s HTTP/1.1\r\nHost: %s\r\nContent-Type: application/json\r\nContent-Length: %d\r\nConnection: close\r\n\r\n%s", target, addr, len(body), body)
 	if _, err := c.Write([]byte(req)); err != nil {
 		o.Err, o.End = "write", "error"
@@ -475,6 +516,7 @@ func RunClient(addr, target string, sc *Scenario, t0 time.Time, acks []chan stru
 		}
 		enc.add(p)
 		o.BodyLen += len(p)
+		atomic.AddInt64(prog, int64(len(p)))
 		for next < len(thresholds) && o.BodyLen >= thresholds[next] {
 			close(acks[next])
 			next++
@@ -514,12 +556,13 @@ func RunClient(addr, target string, sc *Scenario, t0 time.Time, acks []chan stru
 			if bp != nil && len(data) > 0 {
 				bp.feed(data, sink)
 			}
-			if bp != nil && sc.AbortBytes > 0 && o.BodyLen >= sc.AbortBytes {
-				abort()
+			if bp != nil && bp.complete && (bp.chunked || bp.cl >= 0) {
+				// the whole response is here: nothing left to abort
+				o.End, o.EndUs = "clean", us(t0)
 				break
 			}
-			if bp != nil && bp.complete && (bp.chunked || bp.cl >= 0) {
-				o.End, o.EndUs = "clean", us(t0)
+			if bp != nil && sc.AbortBytes > 0 && o.BodyLen >= sc.AbortBytes {
+				abort()
 				break
 			}
 		}
@@ -621,6 +664,9 @@ func StartRig(engine, profile string, forced bool, timeoutMs int) (*Rig, error) 
 		s.Proxy.UpdateConfig(pc)
 	}
 	s.SetStatus("T", domain.StatusHealthy)
+	if reg, err := s.Disc.GetRegistry(); err == nil { // what a model-discovery round would do (route anthropic names a model)
+		reg.RegisterModels(context.Background(), b.URL(), []*domain.ModelInfo{{Name: "m1", Type: "model", LastSeen: time.Now()}})
+	}
 	r := &Rig{S: s, B: b}
 	// warm-up: lazily created per-endpoint pools, breakers and the like exist before the baseline is taken
 	w := stack.Do(s.Addr, stack.Request("POST", "/olla/proxy/v1/warm", s.Addr, [][2]string{{"Content-Type", "application/json"}}, []byte("{}"), false), 3*time.Second)
@@ -649,9 +695,13 @@ func (r *Rig) Play(sc *Scenario) *Obs {
 		thr[i] = sum
 		planned += s.GapMs + sc.AckMs
 	}
-	bo := r.B.Arm(sc, t0, acks)
+	prog := new(int64)
+	if sc.Route == "anthropic" {
+		thr = nil // acknowledgement by activity, not by byte count
+	}
+	bo := r.B.Arm(sc, t0, acks, prog)
 	deadline := t0.Add(time.Duration(planned+sc.HoldMs+sc.TimeoutMs+1500) * time.Millisecond)
-	co := RunClient(r.S.Addr, "/olla/proxy/v1/chat/completions", sc, t0, acks, thr, deadline)
+	co := RunClient(r.S.Addr, sc, t0, acks, thr, prog, deadline)
 	// the backend finishes its script (a stall is released after HoldMs) — wait for it so that the observation is complete
 	select {
 	case <-r.B.Done():
